@@ -16,6 +16,7 @@ RULE = ('(i) every clause body tree with <= N operators from , ; -> \\+ over the
         'unparenthesised body l1 op1 l2 .. opk lk+1 (k <= K, ops from , ; ->, every leaf from {z o m true} '
         'optionally prefixed by \\+) compiled as written and compared with RefProlog run on the tree obtained by '
         'an independent operator-precedence reading; (iii) deep spines: every tree with <= D operators over the leaves {o m z ! and q = a test on the variable of a two-solution goal in front of the body, so that the construct is entered twice with different outcomes} placed in ONE position (condition, then, else, either alternative, negated goal, either conjunct) of a construct whose other positions are single leaves, with a continuation goal; every tree with exactly 3 operators over two of the leaves {o z !} in each TAIL position (then, else, right alternative, right conjunct); (iv) body-local variables: every tree <= 2 [thorough 3] operators whose leaves bind variables that do not occur in the head (X = a, Y = b, m(X), true, fail), exposed by a continuation R = r(X,Y). states = distinct answer sequences; transitions = '
+        '(v) long branches: a conjunction of 1..10 goals as then-branch, else-branch or continuation of 9 constructs whose condition has alternatives of its own (disjunction, if-then-else or negation inside the condition). '
         'next() calls on the real engine; non-trivial = at least one answer')
 ASSUMPTIONS = ['RefProlog implements the standard semantics of ; -> \\+ and cut',
                'cuts in the condition of -> or under \\+ are outside the property and skipped',
@@ -39,6 +40,7 @@ def plan(tier):
     sh += [('spine', k, 64, 2, tier) for k in range(64)]
     sh += [('tails', k, 64) for k in range(64)]
     sh += [('locals', k, 16, 2 if tier == 'quick' else 3) for k in range(16)]
+    sh += [('long', k, 16) for k in range(16)]
     if tier != 'quick':
         sh += [('spine', k, 256, 3, tier) for k in range(256)]
     return sh
@@ -63,7 +65,54 @@ def run_shard(spec):
         return run_tails(spec)
     if spec[0] == 'locals':
         return run_locals(spec)
+    if spec[0] == 'long':
+        return run_long(spec)
     return run_prec(spec)
+
+
+# ---- long branches ------------------------------------------------------------------------------
+# Sizes: a conjunction of 1..10 goals (the last one with two solutions) as then-branch, else-branch
+# or continuation of each construct whose condition has alternatives of its own.
+def long_cases():
+    o, m, z = ('L', 'o'), ('L', 'm'), ('L', 'z')
+
+    def long(n):
+        t = m
+        for _ in range(n - 1):
+            t = (',', o, t)
+        return t
+    idx = 0
+    for n in range(1, 11):
+        ln = long(n)
+        skeletons = [
+            (';', ('->', (';', m, o), ln), m),
+            (';', ('->', (';', ('->', m, o), o), ln), m),
+            (',', (';', m, o), ln),
+            (',', (';', ('->', m, o), z), ln),
+            (',', ('\\+', (';', z, z)), ln),
+            (';', ('->', (';', z, o), o), ln),
+            (',', (';', ('->', o, ln), m), o),
+            (';', ('->', ('\\+', (';', z, z)), ln), m),
+            (';', ('->', (',', m, (';', z, o)), ln), m),
+        ]
+        for si, t in enumerate(skeletons):
+            yield idx, n, si, t
+            idx += 1
+
+
+def run_long(spec):
+    _, k, n = spec
+    acc = Acc()
+    for idx, ngoals, si, t in long_cases():
+        if idx % n != k:
+            continue
+        for vi, var in enumerate([dict(), dict(prefix=True, suffix=1)]):
+            case = treecheck.tree_case(t, **var)
+            res = case.run()
+            if res['status'] == 'violation':
+                res['sig'] = 'long-branch:' + res['sig']
+            account(acc, ('long', idx, vi), case, res, key='long|%d|%d|%d' % (ngoals, si, vi))
+    return acc
 
 
 def run_trees(k, n, maxops, tier):
